@@ -973,6 +973,8 @@ class Interp(Engine):
             'less': C('<'), 'less_equal': C('<='), 'greater': C('>'), 'greater_equal': C('>='), 'equal': C('=='),
             'logical_and': logical(s.and_), 'logical_or': logical(s.or_),
             'isclose': Builtin('np.isclose', isclose), 'allclose': Builtin('np.allclose', allclose),
+            # [A] np.result_type on (dtype, scalar type) pairs = join in the 4-point lattice bool < int < float < complex
+            'result_type': Builtin('np.result_type', lambda a, k: s.minmax(list(a), 'max')),
             'min': Builtin('np.min', npmin), 'max': Builtin('np.max', npmax),
             'all': Builtin('np.all', lambda a, k: s.np_all(a[0])), 'any': Builtin('np.any', lambda a, k: s.np_any(a[0])),
             'floor': un(s.floor), 'ceil': un(s.ceil), 'abs': un(s.absv), 'absolute': un(s.absv),
